@@ -958,6 +958,47 @@ func main() {
 			}
 		}
 	}
+	// ---- part E: operations on all databases against a transaction that contains one: both finish
+	for rep := 0; rep < 6 && failures == 0; rep++ {
+		vs := redisemu.VerifNewStore("")
+		a, b := vs.NewClient(), vs.NewClient()
+		do := func(cl *redisemu.VerifClient, c ...string) string { r, _ := cl.Dispatch(toArgv(c)); return string(r) }
+		do(b, "SELECT", "1")
+		do(b, "SET", "other", "1")
+		started := make(chan struct{})
+		fin := make(chan string, 2)
+		go func() {
+			do(a, "MULTI")
+			for i := 0; i < 20000; i++ {
+				do(a, "PING")
+			}
+			do(a, "FLUSHALL")
+			do(a, "SET", "s", "after")
+			close(started)
+			do(a, "EXEC")
+			fin <- "A"
+		}()
+		<-started
+		time.Sleep(time.Duration(1+rep) * time.Millisecond)
+		go func() {
+			do(b, []string{"FLUSHALL", "FLUSHDB", "FLUSHALL"}[rep%3])
+			fin <- "B"
+		}()
+		for n := 0; n < 2; n++ {
+			select {
+			case <-fin:
+			case <-time.After(20 * time.Second):
+				fail("flush-pair", rep, []string{"A: MULTI; PING x 20000; FLUSHALL; SET s after; EXEC", "B (database 1, while A's EXEC runs): FLUSHALL"},
+					"the transaction and the other connection's flush did not both finish within 20 s: they wait for each other")
+				n = 2
+			}
+		}
+		stats["flush_pair_checks"]++
+		if failures == 0 {
+			a.Close()
+			b.Close()
+		}
+	}
 	res := map[string]any{"stats": stats, "samples": samples, "failures": failures, "wall_s": time.Since(start).Seconds()}
 	if *out != "" {
 		data, _ := json.MarshalIndent(res, "", " ")
